@@ -127,12 +127,10 @@ theorem constructChr_paths (v : Variant) (cfg : Cfg) (rs : Bool) (c : Chr) (fs :
     (constructChr v cfg rs c fs).all (fun a => Rcon c (actPath a)) = true := by
   unfold constructChr
   split
-  · simp [Rcon, actPath]
-  · rcases cfg with ⟨chrs, mchrs, bchrs, genedb, rg, keepTmp, unmapped, fromSaves, sqanti, carried⟩
-    rcases v with ⟨fl, dp, lf, cu, cb, dd, fsq, rc⟩
-    cases genedb <;> cases rg <;> cases fl <;> cases sqanti <;> cases fsq <;>
-      simp [evs, aggInit, printerStreams, aggPrinters, gffStreams, sqStreams, grouped, ungroupedGlobal,
-        groupedGlobal, modelGrouped, dumpUngrouped, dumpGrouped, Rcon, actPath, Ev.path]
+  · cases hn : cfg.noModel <;> simp [trStatPaths, hn, Rcon, actPath]
+  · cases hn : cfg.noModel <;>
+      simp [evs, aggInit, trStatPaths, hn, dumpUngrouped, dumpGrouped, dumpProfile, Rcon, actPath, Ev.path, List.all_append,
+        List.all_map, List.all_flatMap, List.all_filter, Function.comp_def]
 
 theorem Rcon_Tcon {c c' : Chr} (hne : c' ≠ c) {p : Path} (h : Tcon c' p = true) : Rcon c p = false := by
   cases p <;> simp [Tcon] at h <;> simp [Rcon] <;> intro e <;> exact hne (h ▸ e ▸ rfl)
@@ -178,11 +176,9 @@ theorem constructChr_T_any (v : Variant) (cfg : Cfg) (rs : Bool) (c : Chr) (fs :
     (eventsOf (constructChr v cfg rs c fs)).all (fun e => Tcon c e.path) = true := by
   unfold constructChr
   split
-  · simp [eventsOf]
-  · rcases cfg with ⟨chrs, mchrs, bchrs, genedb, rg, keepTmp, unmapped, fromSaves, sqanti, carried⟩
-    rcases v with ⟨fl, dp, lf, cu, cb, dd, fsq, rc⟩
-    cases genedb <;> cases rg <;> cases fl <;> cases sqanti <;> cases fsq <;>
-      simp [eventsOf, eventsOf_append, evs, aggInit, printerStreams, aggPrinters, gffStreams, sqStreams, grouped, ungroupedGlobal,
-        groupedGlobal, modelGrouped, dumpUngrouped, dumpGrouped, Tcon, Ev.path]
+  · cases hn : cfg.noModel <;> simp [trStatPaths, hn, eventsOf]
+  · cases hn : cfg.noModel <;>
+      simp [eventsOf, eventsOf_append, eventsOf_evs, aggInit, trStatPaths, hn, dumpUngrouped, dumpGrouped, dumpProfile, Tcon,
+        Ev.path, List.all_append, List.all_map, List.all_flatMap, List.all_filter, Function.comp_def]
 
 end IsoVerif.Lemmas.Resume
